@@ -188,3 +188,21 @@ def run(ctx):
                         "domain = the enabling conditions (VSkip) of the trace specifications of the other properties",
                         "UBSan reports each instrumented site (per template instantiation / inlined copy) once per process: a second in-domain event at a site "
                         "already reported for an earlier event of the same run is not observed separately"]
+
+
+def replay(ctx, path):
+    """Re-judge the recorded reporting events: the harness's trace specification says which are inside the documented domain."""
+    base = os.path.basename(path)
+    m = re.match(r"C20-ub-(c\d\d[a-z]*)-", base)
+    tm = {h[0]: h[2] for h in HARNESSES}.get(m.group(1)) if m else None
+    if not tm:
+        vlib.log("[replay] %s is not a per-event sanitizer replay (see its .note.txt)" % base)
+        return 2
+    v = vlib.validate_trace(tm, path, ctx.scratch, jobs=1, min_lines=10 ** 9, timeout=600)
+    if v.failures:
+        raise vlib.Infra("trace validation of the replay failed: " + v.failures[0][1][-600:])
+    indomain = v.events - v.skipped
+    vlib.log("[replay] %d recorded event(s) with sanitizer reports, %d inside the documented domain of %s" % (v.events, indomain, tm))
+    if indomain:
+        ctx.violation("%d recorded in-domain event(s) carry sanitizer reports" % indomain, path)
+    return 1 if ctx.violations else 0
